@@ -111,3 +111,14 @@ claim('C06', 'model_checking',
       'location -> rules; 772 (quick) / 5157 (thorough) corpus entries are re-interpreted inside TLC.',
       'trusts TLC and the transcription of DWARF5 6.4/7.24 and the LSB .eh_frame chapter; operands < 2^21; DW_EH_PE_indirect/datarel etc. and the 64-bit '
       '.eh_frame length form are outside the quantifier', 'DESIGN.md 5/C06')
+claim('C08', 'model_checking',
+      'TLA+ REL/RELA/MIPS64 decode, the RELR anchor/bitmap machine, the psABI recipe table over Wide arithmetic and the apply machine '
+      '(spec/Reloc.tla) model-checked by TLC (DecodeRoundTrip, RelrMachineIsDenotation, RelrRoundTrip, ApplyTouchesOnlyField, ApplyIsFold); emitted '
+      'tables/streams/ET_REL images replayed into RelocationSection/RelrRelocationSection/get_dwarf_info; corpus relocations validated as traces '
+      '(spec/trace/RelocTrace.tla)',
+      'TLC enumerates relocation tables x 4 class/byte-order combinations x MIPS64 sub-fields, RELR word streams and address sets, the complete product of '
+      'supported (machine, type) rows x symbol/addend/in-place value classes x field offsets, unsupported types, wrong flavours and bad symbol indices; '
+      'every relocated byte of the debug stream and every untouched byte is compared; 9k (quick) / 21k (thorough) corpus relocations are re-applied '
+      'inside TLC.',
+      'trusts TLC, the psABI transcriptions (x86, x86-64, ARM, AArch64, MIPS, PPC64, S390x, LoongArch) and Wide ripple-carry arithmetic; BPF and '
+      'composed MIPS64 relocations are not asserted', 'DESIGN.md 5/C08')
